@@ -2,7 +2,7 @@
 """apply a seeded patch to /repo, run every check (no evidence written), undo. usage: tools_seeded.py <patch> [props...]"""
 import subprocess, sys, json, os
 patch = os.path.abspath(sys.argv[1])
-props = sys.argv[2:] or [f"C{i:02d}" for i in range(1, 21) if i != 3]
+props = sys.argv[2:] or [f"C{i:02d}" for i in range(1, 21)]
 assert subprocess.run(["git", "-C", "/repo", "status", "--porcelain", "--untracked-files=no"], capture_output=True, text=True).stdout.strip() == "", "repo dirty"
 subprocess.check_call(["git", "-C", "/repo", "apply", patch])
 try:
